@@ -70,6 +70,9 @@ def schedules(tier):
     # held by waiting sessions must not make this call wait for *their* timeouts
     out.append({"name": "K-crowd-value", "crowd": 20, "strays": [], "reply": 0.2, "expect": "value"})
     out.append({"name": "K-crowd-silent", "crowd": 20, "strays": [], "reply": None, "expect": "timeout"})
+    # a long-lived session: 250 exchanges, each of which first skips a non-matching datagram, then an unanswered request -
+    # whatever the receive path re-arms or restores per request must not drift
+    out.append({"name": "L-after-250-strayed-exchanges", "warmup": 250, "strays": [], "reply": None, "expect": "timeout", "sync_only": False})
     out.append({"name": "H-timeout-then-late-reply", "seq": [
         {"name": "H1a", "strays": [0.6], "reply": None, "expect": "timeout"},
         {"name": "H1b", "strays": [], "reply": 0.75, "expect": "value"},
@@ -101,6 +104,18 @@ def run_case(cfg, agent, drv, sch, serial):
             st["t_req"] = time.perf_counter()
             return out
         return agent.discovery_or(req, f)
+    if sch.get("warmup"):
+        def quick(agent, req):
+            def f(req):
+                if not req.ok:
+                    return None
+                return [agent.reply(req, [B.enc_varbind(OID, B.enc_int(665))], request_id=(req.request_id + 1) & 0x7FFFFFFF),
+                        agent.reply(req, [B.enc_varbind(OID, B.enc_int(664))])]
+            return agent.discovery_or(req, f)
+        agent.handler = quick
+        for _ in range(sch["warmup"]):
+            drv.call("get", B.oid_text(OID))
+        agent.wait_idle(timeout=5)
     agent.handler = handler
     n0 = len(agent.log)
     d = Drift()
